@@ -326,6 +326,28 @@ func rpC14() (out []RProp) {
 		if rapid.IntRange(0, 3).Draw(rt, "hasPrefix") == 0 {
 			c.Consumed = rapid.IntRange(1, 100).Draw(rt, "consumed")
 		}
+		if rapid.IntRange(0, 2).Draw(rt, "reuse") == 0 {
+			l := len(c.data())
+			for k := rapid.IntRange(1, 3).Draw(rt, "edits"); k > 0; k-- {
+				e := C14Edit{Kind: rapid.SampledFrom([]string{"patch", "refill", "refill"}).Draw(rt, "ekind")}
+				if e.Kind == "patch" {
+					e.Off = rapid.IntRange(0, max(0, l-1)).Draw(rt, "eoff")
+					e.Data = rapid.SliceOfN(rapid.Byte(), 1, 4).Draw(rt, "edata")
+				} else {
+					// mostly the same length as before (a frame of the same type with other content), sometimes another
+					n := l
+					if rapid.IntRange(0, 3).Draw(rt, "otherlen") == 0 {
+						n = rapid.IntRange(0, 300).Draw(rt, "elen")
+					}
+					e.Data = expandBytes(min(n, 1<<16), rapid.Uint64().Draw(rt, "esalt"))
+					if e.Data == nil {
+						e.Data = HexBytes{}
+					}
+				}
+				c.Then = append(c.Then, e)
+			}
+			Col.Class("same-buffer-changed-and-checksummed-again", 1)
+		}
 		c14Record(c, c.data(), "random")
 		return c
 	}, oracleC14))
